@@ -16,12 +16,8 @@ def run_one(job):
             return "skip", None
         ast.fix_missing_locations(tree)
         ref = core.Program()
-        symeval.set_program(ref)
-        s1 = equiv.summarize(ref, qn)
         cur = core.Program(overlay={relpath: ast.unparse(tree)})
-        symeval.set_program(cur)
-        s2 = equiv.summarize(cur, qn)
-        r = equiv.compare(s1, s2)
+        r = equiv.prove(ref, cur, qn)       # exactly what vsa/refsub does
         return ("EQ", None) if r is None else ("NE", r[:220])
     except equiv.NotComparable as e:
         return "??", str(e)[:120]
